@@ -17,3 +17,7 @@ def check(rep, tier):
     rep.run(diffops.run_nary, rep, tier, clauses=("UN-reentrant",))
     from contracts import core_rules
     rep.run(core_rules.run, rep, tier, parts=("nodes",))
+    from contracts import rules_numeric as _rn19
+    rep.run(_rn19.run, rep, tier, clauses=('N-reuse', 'N-frozen'))    # a second application of a returned vjp function does not depend on the first
+    from contracts import rules_exact as _rx
+    rep.run(_rx.run, rep, tier, ('X-reuse', 'X-frozen'))
